@@ -31,6 +31,12 @@
 (*      processing of this key; no key pressed after the activation has     *)
 (*      been released) is output with the one-shot applied - whatever keys  *)
 (*      pressed BEFORE the activation are released meanwhile;               *)
+(*  O8  never active past its timeout: when the activation began at a        *)
+(*      quiescent point and every one-shot key was released again before    *)
+(*      any other input (a clean tap, processed before the timeout), the    *)
+(*      one-shot outputs are up from tick 1 + T after the last one-shot     *)
+(*      press on - whatever other keys (plain keys, macros) follow: other   *)
+(*      keys end a one-shot early, they never prolong it;                   *)
 (*  O7  never lingers: with no one-shot key held, every one-shot output is  *)
 (*      up within a bound after the last one-shot press.                    *)
 (***************************************************************************)
@@ -70,6 +76,7 @@ MonInit(p) ==
    rsharp |-> FALSE,     \* the activation began at a quiescent point (O2m)
    rel |-> 0,            \* ticks since the (estimated) processing of the last one-shot press (O2m)
    lagq |-> 0,           \* upper bound on the number of inputs not yet processed by kanata
+   tapS |-> FALSE,       \* the activation is a clean tap in the sharp zone (O8)
    pend |-> <<>>,        \* other-key presses not output yet: [o, clean, mod]
    down |-> {}, lastIdle |-> TRUE, quiet |-> p.red + 1, err |-> ""]
 
@@ -98,11 +105,12 @@ MonIn(m, r) ==
                       \* is a fresh activation, not a cancellation, and keys pressed earlier no longer count
                       LET certain == m.ended = "no" /\ m.sharp /\ inSync IN
                       [m0 EXCEPT !.held = @ \cup {i}, !.sharp = FALSE, !.el = 0, !.plain = @ \ {i}, !.rsharp = FALSE,
+                                 !.tapS = FALSE,
                                  !.afterAct = IF certain THEN @ ELSE {},
                                  !.maybeAct = IF certain THEN @ ELSE @ \cup m.afterAct,
                                  !.sure = IF certain THEN @ ELSE {},
                                  !.ended = IF certain THEN "yes" ELSE "maybe"]
-                 ELSE [m0 EXCEPT !.held = @ \cup {i}, !.plain = @ \cup {i}, !.curT = KeyT(p, i),
+                 ELSE [m0 EXCEPT !.held = @ \cup {i}, !.plain = @ \cup {i}, !.curT = KeyT(p, i), !.tapS = FALSE,
                                  !.rel = 0 - m.lagq,
                                  !.rsharp = IF over THEN m.lastIdle /\ m.quiet > p.red /\ m.pend = <<>> /\ m.lagq = 0
                                             ELSE m.rsharp /\ m.lagq < LagCap(p),
@@ -118,7 +126,11 @@ MonIn(m, r) ==
                                  !.sharp = IF over
                                            THEN m.lastIdle /\ m.quiet > p.red /\ m.pend = <<>> /\ inSync
                                            ELSE m.sharp /\ inSync]
-            ELSE [m0 EXCEPT !.held = @ \ {i}, !.plain = @ \ {i}, !.sharp = m.sharp /\ inSync]
+            ELSE \* release of a one-shot key; O8: the last held one-shot key goes up in the sharp zone, before any other
+                 \* input and early enough to be processed before the timeout
+                 [m0 EXCEPT !.held = @ \ {i}, !.plain = @ \ {i}, !.sharp = m.sharp /\ inSync,
+                            !.tapS = m.sharp /\ inSync /\ ~m.used /\ m.ended = "no" /\ (m.held \ {i}) = {}
+                                     /\ i \in m.held /\ m.el >= 1 /\ m.el + 1 < m.curT]
        ELSE IF r.e = "d"
        THEN LET o == OutOf(p, r.c)
                 \* must this key come out unmodified?  (decided by what had arrived before it)
@@ -175,6 +187,8 @@ MonTick(m, out, idle, cb) ==
               THEN Fail(m1, "C06 O1/O3: the one-shot output is not applied while the one-shot is active")
               ELSE IF sharpNow /\ T >= 1 + m.curT /\ m.held = {} /\ (qsChain \cap m1.down) # {}
               THEN Fail(m1, "C06 O3: the one-shot did not expire at its timeout")
+              ELSE IF m.tapS /\ m.held = {} /\ T >= 1 + m.curT /\ (AllQ(p) \cap m1.down) # {}
+              THEN Fail(m1, "C06 O8: the one-shot is still active after its timeout (prolonged by a following key)")
               \* idle twice in a row with no input in between: nothing is pending inside kanata
               ELSE IF m.held = {} /\ idle /\ m.lastIdle /\ m.gapIn = 0 /\ m1.pend = <<>> /\ (AllQ(p) \cap m1.down) # {}
               THEN Fail(m1, "C06 O7: a one-shot output lingers")
